@@ -8,7 +8,7 @@
    faults (array index out of range) nor runs out of fuel. *)
 From DV Require Import Lib.Base ObjTree.ObjTree ObjTree.Dispatch Spec.ObjtreeSpec Spec.ObjtreeSpecDispatch
   Proofs.ObjtreeOrder Proofs.ObjtreeProofs Proofs.ObjtreeOracle Proofs.ObjtreeSim Proofs.ObjtreeDispatch
-  Proofs.ObjtreeDispatchSpec Proofs.ObjtreeMisc.
+  Proofs.ObjtreeDispatchSpec Proofs.ObjtreeMisc Proofs.ObjtreeCount ObjTree.Decompose Spec.NamesSpec Proofs.ObjtreeDecompose.
 From Coq Require Import Sorted.
 
 (* (1) offered first to the exact handler, then to the fallbacks of successively
@@ -231,6 +231,33 @@ Theorem C20_free_all_members : forall ops,
   exists t, run ops = Ok t /\ forall h, In h (free_all t) <-> exists p fb, s_lookup (s_run ops) p = Some (h, fb).
 Proof. exact free_all_history. Qed.
 Print Assumptions C20_free_all_members.
+
+(* ... and there are exactly as many of them as registered paths: each registered handler's unregister
+   function runs exactly once (the order — children from the last to the first, each subtree completely,
+   then the node itself — is part of the model and compared with the real code, the specification leaves it open) *)
+Theorem C20_free_all_count : forall ops, exists t, run ops = Ok t /\ length (free_all t) = length (s_run ops).
+Proof. exact free_all_count. Qed.
+Print Assumptions C20_free_all_count.
+
+(* (13) _dbus_decompose_path at byte level: the complete set of its assertion-free runs — a one-byte
+   string gives the empty vector (whatever the byte: the public API checks path[0] == '/' before), any
+   other string must be '/' e1 '/' e2 ... with non-empty, slash-free elements and no NUL, and the result is
+   exactly e1, e2, ...; in particular every string of the object-path grammar (Spec.NamesSpec.spec_path,
+   equal to _dbus_validate_path by C16_path) is split into its elements, and flatten_path is its inverse *)
+Theorem C20_decompose_spec : forall s cs,
+  decompose s = Ok cs <->
+  (cs = [] /\ exists c, s = [c]) \/ (cs <> [] /\ Forall good_comp cs /\ s = flatten_elems cs /\ nul_free s).
+Proof. exact decompose_spec. Qed.
+Print Assumptions C20_decompose_spec.
+
+Theorem C20_decompose_valid_path : forall s, spec_path s = true ->
+  decompose s = Ok (path_elements s) /\ flatten (path_elements s) = s /\ Forall good_comp (path_elements s).
+Proof. exact decompose_valid_path. Qed.
+Print Assumptions C20_decompose_valid_path.
+
+Example ex_decompose : decompose [47; 97; 47; 98; 95]%N = Ok [[97%N]; [98; 95]%N]. Proof. reflexivity. Qed.
+Example ex_decompose_trailing : decompose [47; 97; 47]%N = Fault. Proof. reflexivity. Qed.
+Example ex_decompose_one_byte : decompose [97%N] = Ok []. Proof. reflexivity. Qed.
 
 (* non-vacuity / behaviour samples of the dispatch model *)
 Example ex_requeue :   (* filter 50 and handler 1 each run out of memory once: the message is dispatched three times *)
